@@ -3,6 +3,7 @@ import WebpVerif.Model.LosslessKernels
 import WebpVerif.Spec.Lossless
 import WebpVerif.Lemmas.BitWriter
 import WebpVerif.Lemmas.BitReader
+import WebpVerif.Lemmas.EncLoop
 
 /-!
 # C04 — the lossless encoder round-trips every image exactly
@@ -143,5 +144,52 @@ theorem written_field_is_read_back (pre post : List (Nat × Nat)) (bits n : Nat)
 /-- non-vacuity: fields that straddle the 64-bit buffer boundary -/
 example : BitWriterProof.output [(0x2f, 8), (5, 14), (9, 14), (1, 1), (0, 3), (0x1ffffffffff, 41), (3, 2)] =
     #[0x2f, 5, 64, 2, 16, 255, 255, 255, 255, 255, 7] := by decide
+
+/-! ### symbol level: the decoder's pixel loop inverts the encoder's run tokens -/
+
+/-- the only distance the encoder uses: its distance code is the single symbol 1, which the
+    decoder turns (prefix value 2, plane code 2 = one pixel to the left) into distance 1, for
+    every image width -/
+theorem run_distance_is_one (xsize : Nat) :
+    LK.copyExtraBits 1 = 0 ∧ LK.planeCodeToDistance xsize (LK.copyValue 1 0) = 1 := by
+  refine ⟨by decide, ?_⟩
+  have e : LK.copyValue 1 0 = 2 := by decide
+  rw [e]
+  unfold LK.planeCodeToDistance
+  rw [if_neg (by decide)]
+  have e2 : Gen.Tables.DISTANCE_MAP.getD (2 - 1) [] = [1, 0] := by decide
+  simp only [e2]
+  simp
+
+theorem expandV_map (f : List Nat → Nat) : ∀ toks : List (List Nat × Nat),
+    EncLoop.expandV (toks.map fun t => (f t.1, t.2)) = (expandTokens toks).map f := by
+  intro toks
+  induction toks with
+  | nil => rfl
+  | cons t rest ih =>
+    obtain ⟨p, run⟩ := t
+    simp only [List.map_cons, EncLoop.expandV, expandTokens, ih, List.map_append, List.map_replicate]
+
+/-- **Encoder tokens through the decoder's pixel loop.**  For every pixel sequence `px` of a
+    `w × h` image (after the forward transforms) and every packing `f` of a pixel into a number:
+    the operations the encoder's tokens stand for (a literal, then - for a run - a backward
+    reference of that length with distance 1), fed to the model of `decode_image_data`'s pixel
+    loop (proved equal to the specification decoder in C01 and tied to the code there), yield
+    exactly `px`, whatever the output buffer held before.  Together with `length_symbol_inv`,
+    `short_run_symbols` and `run_distance_is_one` (symbols ↔ operations) and the inverse
+    transform theorems this is the round trip at the symbol level; the bit level is
+    `written_field_is_read_back` plus the prefix-code tables (C14, execution). -/
+theorem pixel_loop_decodes_tokens (f : List Nat → Nat) (px : List (List Nat)) (w h : Nat) (hw : 0 < w)
+    (hlen : px.length = w * h) (init : Array Nat) (hinit : init.size = w * h) :
+    LLoop.decode (EncLoop.cfgEnc w h) init
+        (EncLoop.opsOf ((tokenize px px.length).map fun t => (f t.1, t.2))) = .ok (px.map f).toArray := by
+  have e := expandV_map f (tokenize px px.length)
+  rw [(tokens_inv px px.length (Nat.le_refl _)).1] at e
+  rw [EncLoop.decode_tokens w h hw _ init hinit (by rw [e, List.length_map, hlen]), e]
+
+-- non-vacuity: a 3x2 image with a run, through the model of the real loop
+example : LLoop.decode (EncLoop.cfgEnc 3 2) (Array.replicate 6 77)
+    (EncLoop.opsOf ((tokenize [[1], [1], [1], [1], [2], [3]] 6).map fun t => (t.1.getD 0 0, t.2))) = .ok #[1, 1, 1, 1, 2, 3] := by
+  decide +kernel
 
 end C04
